@@ -24,8 +24,11 @@ pub fn all_units() -> Vec<&'static str> {
     v
 }
 
-pub const PAIR_OPS: [&str; 16] = [
+pub const PAIR_OPS: [&str; 18] = [
     "+", "-", "<", "==", "%", "min", "max", "div", "div-unit", "*", "*-unit", "compatible", "unit", "emit*", "emit-div", "!=",
+    // three arguments: the first operand scaled (x3 / :3) comes last, so the running extreme has
+    // changed unit before the last comparison
+    "min3", "max3",
 ];
 
 #[derive(Clone, Debug, Serialize, Deserialize, Hash, PartialEq)]
@@ -115,6 +118,8 @@ fn render(it: &Item) -> String {
     match it.op.as_str() {
         "+" | "-" | "<" | "==" | "!=" | "%" => format!("{} {} {}", a, it.op, b),
         "min" | "max" => format!("math.{}({}, {})", it.op, a, b),
+        "max3" => format!("math.max({}, {}, {} * 3)", a, b, a),
+        "min3" => format!("math.min({}, {}, math.div({}, 3))", a, b, a),
         "div" => format!("meta.inspect(math.div({}, {}))", a, b),
         "div-unit" => format!("math.unit(math.div({}, {}))", a, b),
         "*" => format!("meta.inspect({} * {})", a, b),
@@ -254,6 +259,27 @@ pub fn expect(it: &Item) -> Exp {
                         second
                     }
                 }
+            }
+        }
+        "min3" | "max3" => {
+            if !compat {
+                return Exp::Error;
+            }
+            let (a, c, _, _) = aligned(it).unwrap();
+            let is_max = it.op == "max3";
+            let t = if is_max { a * 3.0 } else { a / 3.0 };
+            let close = |x: f64, y: f64| (x - y).abs() <= 1e-9 * x.abs().max(y.abs());
+            if close(a, c) || close(a, t) || close(c, t) {
+                return Exp::Skip("ordering of equal quantities is C07's subject");
+            }
+            let best = if is_max { a.max(c).max(t) } else { a.min(c).min(t) };
+            if best == a {
+                Exp::Num { v: v1, e: 0.0, unit: it.u1.clone() }
+            } else if best == c {
+                Exp::Num { v: v2, e: 0.0, unit: it.u2.clone() }
+            } else {
+                let v3 = if is_max { v1 * 3.0 } else { v1 / 3.0 };
+                Exp::Num { v: v3, e: 4.0 * dec::ulp(v3), unit: it.u1.clone() }
             }
         }
         "==" | "!=" => {
@@ -709,7 +735,7 @@ impl Prop for C08 {
         "C08"
     }
     fn rule(&self) -> String {
-        "enumerated: every ordered pair over 34 known units + the unknown unit `foo` + unitless (36^2 = 1296) x {+, -, <, ==, !=, %, math.min, math.max, math.div (inspect, math.unit, emission), * (inspect, math.unit, emission), math.compatible, math.unit} x 4 magnitudes (same quantity in both units / 3 and 7 / 12.5 and -0.25 / the same raw number 5 with both units; one magnitude where the value plays no role), plus round-trip and transitivity laws over all ordered pairs / triples of each conversion class x 3 values; items that must evaluate are batched 200 per compile, items that must be rejected are compiled alone. Enumerated as well: all three-factor chains (a*b)/c, (a/b)/c, (a/b)*c over 11 representative units. Generated (thorough tier only): chains of 1..5 `*` / math.div steps over the same units (+ a second unknown unit), discarded if an intermediate result exceeds 2 numerator or 2 denominator units. Non-trivial: a pair item with two distinct units; a chain with at least one cancellation or a compound result. Distinct = distinct item / chain expression.".into()
+        "enumerated: every ordered pair over 34 known units + the unknown unit `foo` + unitless (36^2 = 1296) x {+, -, <, ==, !=, %, math.min, math.max (two arguments, and three: a, b, a*3 resp. a/3), math.div (inspect, math.unit, emission), * (inspect, math.unit, emission), math.compatible, math.unit} x 4 magnitudes (same quantity in both units / 3 and 7 / 12.5 and -0.25 / the same raw number 5 with both units; one magnitude where the value plays no role), plus round-trip and transitivity laws over all ordered pairs / triples of each conversion class x 3 values; items that must evaluate are batched 200 per compile, items that must be rejected are compiled alone. Enumerated as well: all three-factor chains (a*b)/c, (a/b)/c, (a/b)*c over 11 representative units. Generated (thorough tier only): chains of 1..5 `*` / math.div steps over the same units (+ a second unknown unit), discarded if an intermediate result exceeds 2 numerator or 2 denominator units. Non-trivial: a pair item with two distinct units; a chain with at least one cancellation or a compound result. Distinct = distinct item / chain expression.".into()
     }
     fn assumptions(&self) -> Vec<String> {
         vec![
